@@ -21,23 +21,37 @@ SchemaStrs(s) ==
           \cup (IF Has(t, "default") THEN StrLeaves(t.default) ELSE {})
           \cup (IF Has(t, "discref") THEN {<<"k">>} ELSE {}) : t \in SubSchemas(s)}       \* the mapping key of "discref"
 
-ErrLists(r) == (IF "de" \in DOMAIN r THEN {r.de} ELSE {}) \cup (IF "me" \in DOMAIN r THEN {r.me} ELSE {})
-               \cup (IF "fe" \in DOMAIN r THEN {r.fe} ELSE {})
-               \cup {r[k] : k \in {"ce", "cme", "te", "tme", "qce", "pce", "re", "rme"} \cap DOMAIN r}
+FixedLists == {"de", "me", "fe", "ce", "cme", "te", "tme", "qce", "pce", "re", "rme",
+               \* history clause (the detail switch is process-wide state): "he" / "hme" are the texts of error objects that had
+               \* been rendered once while details were enabled, rendered again after SchemaErrorDetailsDisabled was set -- each
+               \* error by itself and the whole returned error (k = "whole").  What a text may contain depends on the switch
+               \* at the time of rendering only.
+               "he", "hme"}
 
-(* every error list logged for the value, with the option sets it was observed under (<<>> for the fixed runs above); *)
-(* r.x: the runs under the option sets of Gen_C19O, identical observations merged by the harness                     *)
-Observed(r) == {[es |-> es, opts |-> <<>>] : es \in ErrLists(r)}
-               \cup (IF "x" \in DOMAIN r THEN {[es |-> r.x[i].errs, opts |-> r.x[i].opts] : i \in DOMAIN r.x} ELSE {})
+(* every error list logged for the value, with its name and the option sets it was observed under (<<>> for the fixed runs); *)
+(* r.x: the runs under the option sets of Gen_C19O, identical observations merged by the harness                           *)
+Observed(r) == {[es |-> r[k], opts |-> <<>>, list |-> k] : k \in FixedLists \cap DOMAIN r}
+               \cup (IF "x" \in DOMAIN r THEN {[es |-> r.x[i].errs, opts |-> r.x[i].opts, list |-> "x"] : i \in DOMAIN r.x} ELSE {})
 
 Leaks(s, v, r) ==
    LET ms == StrLeaves(v) \ SchemaStrs(s) IN
-   {x \in UNION {UNION {{[where |-> "reason", text |-> e.reasons[j], field |-> (IF "field" \in DOMAIN e THEN e.field ELSE "-"), opts |-> ob.opts]
+   {x \in UNION {UNION {{[where |-> "reason", text |-> e.reasons[j], field |-> (IF "field" \in DOMAIN e THEN e.field ELSE "-"), opts |-> ob.opts, list |-> ob.list]
                              : j \in DOMAIN e.reasons}
-                         \cup {[where |-> "message", text |-> e.text, field |-> (IF "field" \in DOMAIN e THEN e.field ELSE "-"), opts |-> ob.opts]}
+                         \cup {[where |-> "message", text |-> e.text, field |-> (IF "field" \in DOMAIN e THEN e.field ELSE "-"), opts |-> ob.opts, list |-> ob.list]}
                          : e \in Range(ob.es)}
                  : ob \in Observed(r)}
       : \E m \in ms : Contains(x.text, m)}
+
+(* F-C19-1 (open): the cause of a "oneOf" error is built with fmt.Errorf("... %w", errors of the alternatives), which renders  *)
+(* the text of the alternatives' errors AT VALIDATION TIME; if details were enabled then, the frozen text keeps the value dump *)
+(* however the switch stands when the oneOf error is rendered.  Only the history lists, only rendered messages (never a     *)
+(* Reason), only for a schema with a oneOf somewhere -- or a format: the cause of a format error whose validator returned a     *)
+(* schema error is built the same way (fmt.Errorf("... doesn't match the format %q: %w", format, err)).                        *)
+HistoryClass(s, lk) ==
+   IF /\ \E t \in SubSchemas(s) : Has(t, "oneOf") \/ Has(t, "discref") \/ Has(t, "format")
+      \* (the frozen text is part of the message of the oneOf error and of every error that wraps it: allOf, items, properties, ...)
+      /\ \A x \in lk : x.list \in {"he", "hme"} /\ x.where = "message"
+   THEN "cause_text_frozen_at_validation" ELSE "none"
 
 Shared(line) == "share" \in DOMAIN line      \* repeated sub-schemas realised as references to one shared component
 
@@ -49,13 +63,16 @@ SchemaLineOK(line) ==
         \A i \in DOMAIN vs :
            LET lk == Leaks(line.s, vs[i], line.r[i]) IN
            lk = {} \/ CSVWrite("%1$s", <<ToJson([case |-> line.case, s |-> line.s, share |-> Shared(line), v |-> vs[i], failed |-> {"reason_leaks_value"},
-                                                  leaks |-> lk, class |-> "none"])>>, "violations.ndjson")
+                                                  leaks |-> lk, class |-> HistoryClass(line.s, lk)])>>, "violations.ndjson")
 
 ReqLineOK(line) ==
    LET bad == (IF line.verdict # "R" THEN {"harness_realiser"} ELSE {})
               \cup (IF \E i \in DOMAIN line.texts : Contains(line.texts[i], line.marker) THEN {"message_leaks_value"} ELSE {})
    IN bad = {} \/ CSVWrite("%1$s", <<ToJson([case |-> line.case, kind |-> "req", c |-> line.c, failed |-> bad,
-                                              texts |-> line.texts, class |-> "none"])>>, "violations.ndjson")
+                                              texts |-> line.texts,
+                                              \* F-C19-1 seen through the request / response error: rendered late, failing keyword with a frozen cause
+                                              class |-> (IF bad = {"message_leaks_value"} /\ line.c.hide = "nodetails_late" /\ line.c.kw \in {"oneOf", "format"}
+                                                         THEN "cause_text_frozen_at_validation" ELSE "none")])>>, "violations.ndjson")
 
 LineOK(line) == IF "kind" \in DOMAIN line /\ line.kind = "req" THEN ReqLineOK(line) ELSE SchemaLineOK(line)
 
